@@ -5,6 +5,7 @@ package props
 import (
 	"bytes"
 	"fmt"
+	"os"
 	"reflect"
 	"runtime"
 	"sync"
@@ -57,6 +58,9 @@ var c19Alphabet = [][]byte{
 	bytes.Repeat([]byte("x"), 127), bytes.Repeat([]byte("x"), 128), bytes.Repeat([]byte("long-"), 60), []byte("日本"), {0xc3, 0x28},
 }
 
+// rarely used: sizes beyond what slab / chunk based storage would hold in one piece
+var c19BigStrings = [][]byte{bytes.Repeat([]byte("y"), 16384), bytes.Repeat([]byte("z"), 65537), bytes.Repeat([]byte("w"), 70001)}
+
 // c19Strings replaces every string in v by one from the small alphabet (or a fresh one).
 func c19Strings(t *rapid.T, ts *vh.TSpec, v *vh.Val) {
 	u := ts.Under()
@@ -64,6 +68,8 @@ func c19Strings(t *rapid.T, ts *vh.TSpec, v *vh.Val) {
 	case vh.KString:
 		if rapid.IntRange(0, 5).Draw(t, "fresh") == 0 {
 			v.S = []byte(rapid.StringN(0, 6, -1).Draw(t, "s"))
+		} else if rapid.IntRange(0, 150).Draw(t, "bigstr") == 0 {
+			v.S = append([]byte{}, c19BigStrings[rapid.IntRange(0, len(c19BigStrings)-1).Draw(t, "bs")]...)
 		} else {
 			v.S = append([]byte{}, c19Alphabet[rapid.IntRange(0, len(c19Alphabet)-1).Draw(t, "a")]...)
 		}
@@ -196,7 +202,16 @@ func c19DecodeSeq(c c19Case, g int, p *plenc.Plenc, stats *[3]int) *vh.Failure {
 			full[i] = 0x5A ^ byte(i)
 		}
 		stats[1]++
-		// everything ever returned is still what it was
+		// everything ever returned is still what it was (long histories: every 64th step and at the end)
+		if len(c.Steps[g]) > 64 && si%64 != 0 && si != len(c.Steps[g])-1 {
+			collectStrings(it, got, func(s string) {
+				if seen[s] {
+					stats[2]++
+				}
+				seen[s] = true
+			})
+			continue
+		}
 		for ki, k := range kept {
 			if d := vh.Diff(it, vh.FromReflect(it, k.rv), k.want); d != "" {
 				return vh.Fail("C19/interned-string-changed-later", "goroutine %d: result of step %d changed after step %d at %s", g, ki, si, d)
@@ -293,7 +308,7 @@ func c19Run(c c19Case, x *vh.Ctx) *vh.Failure {
 var c19Seq = &vh.Prop[c19Case]{ID: "C19", Name: "sequential-history", Gen: func(t *rapid.T) c19Case { return genC19(t, 1) }, Run: c19Run}
 var c19Sched = &vh.Prop[c19Case]{ID: "C19", Name: "owned-schedule", Gen: func(t *rapid.T) c19Case { return genC19(t, 3) }, Run: c19Run}
 
-func TestC19Sequential(t *testing.T) { c19Seq.Check(t, vh.N(8000, 60000)) }
+func TestC19Sequential(t *testing.T) { c19Seq.Check(t, vh.N(4000, 40000)) }
 
 // c19Long: long single-field histories, so that the interning table grows to
 // hundreds of entries (table-size dependent behaviour) with repeats in between.
@@ -337,7 +352,18 @@ var c19Long = &vh.Prop[c19LongCase]{
 }
 
 func TestC19LongHistory(t *testing.T) { c19Long.Check(t, vh.N(40, 400)) }
-func TestC19Schedules(t *testing.T)   { c19Sched.Check(t, vh.N(2500, 15000)) }
+
+// TestC19HugeHistory (thorough): one history with more than 2^14 distinct
+// strings through the interned fields (table sizes no short history reaches).
+func TestC19HugeHistory(t *testing.T) {
+	if !vh.Thorough() || os.Getenv("VERIF_SHARD") != "0" {
+		t.Skip("thorough tier, first shard only")
+	}
+	if f := c19Long.One(c19LongCase{Shape: 0, Distinct: 17000, Stride: 5}); f != nil {
+		t.Fatalf("C19/long-history %s", f.Error())
+	}
+}
+func TestC19Schedules(t *testing.T)   { c19Sched.Check(t, vh.N(1200, 12000)) }
 
 // TestC19Race: 2-8 free-running goroutines decode through one shared instance (run with -race).
 func TestC19Race(t *testing.T) {
